@@ -61,10 +61,28 @@ func vrtStr(name string, idx ...int) string {
 	if v, ok := vrtCur.model[vrtKey(name, idx)]; ok && v.S != nil {
 		b, err := base64.StdEncoding.DecodeString(*v.S)
 		if err == nil {
+			// amplified attempt: the user's non-empty data carries 32 KiB of incompressible padding
+			if len(b) > 0 && strings.HasPrefix(name, "user.") && vrtBool("vrt.amplify") {
+				return string(b) + vrtNoise(32<<10)
+			}
 			return string(b)
 		}
 	}
 	return ""
+}
+
+// vrtNoise: n pseudo-random characters over [A-Za-z0-9] (deterministic).
+func vrtNoise(n int) string {
+	const alphabet = "ABCDEFGHIJKLMNOPQRSTUVWXYZabcdefghijklmnopqrstuvwxyz0123456789"
+	var sb strings.Builder
+	h := sha256.Sum256([]byte("vrt noise"))
+	for sb.Len() < n {
+		for _, c := range h {
+			sb.WriteByte(alphabet[int(c)%len(alphabet)])
+		}
+		h = sha256.Sum256(h[:])
+	}
+	return sb.String()[:n]
 }
 
 func vrtBytes(name string, idx ...int) []byte { return []byte(vrtStr(name, idx...)) }
